@@ -195,3 +195,42 @@ def mirror_ml(S):
         S.claim_eq(tag + '.mirror_x_axis', holo(-phi), base)
         S.claim_eq(tag + '.mirror_y_axis', holo(S.pi - phi), base)
         S.claim_eq(tag + '.point_reflection', holo(phi + S.pi), base)
+
+
+@obligation('C05.rotation.cluster_orientation_api',
+            functions=['holopy.scattering.scatterer.composite.Scatterers.rotated',
+                       'holopy.scattering.scatterer.spherecluster.RigidCluster.scatterers',
+                       'holopy.core.math.rotate_points', 'holopy.core.math.rotation_matrix'],
+            angle_mode='atoms', timeout_s=120, nvalid=2,
+            bounds='3-sphere cluster with symbolic centres oriented through the library API with symbolic Euler angles '
+                   '(alpha, beta, gamma): increasing the last angle by psi turns every centre by psi about the optical '
+                   'axis through the centroid, for Spheres.rotated and for RigidCluster')
+def cluster_orientation(S):
+    import holopy.core.math as hm
+    import holopy.scattering.scatterer.composite as comp
+    import holopy.scattering.scatterer.spherecluster as scm
+    from holopy.scattering.scatterer import Spheres, RigidCluster
+    if S.sym:
+        for m in (hm, comp, scm):
+            shim_np(S, m)
+        S.patch(hm, 'pi', S.pi)
+    cs = [[S.real(f'c{i}{ax}') for ax in 'xyz'] for i in range(3)]
+    members = [Sphere(n=1.5, r=0.1, center=c) for c in cs]
+    base = Spheres(members, warn=False)
+    a, b, g, psi = S.angle('alpha'), S.angle('beta'), S.angle('gamma'), S.angle('psi')
+    for v in (a, b, g, psi):
+        S.assume(v != 3, 'angle != 3 (fork cut in len(ensure_array(x)==3))')
+    S.assume(g + psi != 3)
+    r0 = [list(s.center) for s in base.rotated(a, b, g).scatterers]
+    r1 = [list(s.center) for s in base.rotated(a, b, g + psi).scatterers]
+    rc = RigidCluster(base, rotation=(a, b, g + psi))
+    r2 = [list(s.center) for s in rc.scatterers]
+    S.observe('r0', np.array(r0, dtype=object if S.sym else float))
+    com = [sum(c[ax] for c in cs) / 3 for ax in range(3)]
+    cp, sp = np.cos(psi), np.sin(psi)
+    for i in range(3):
+        dx, dy = r0[i][0] - com[0], r0[i][1] - com[1]
+        exp = [com[0] + cp * dx - sp * dy, com[1] + sp * dx + cp * dy, r0[i][2]]
+        for ax in range(3):
+            S.claim_eq(f'rotated[{i},{ax}]', r1[i][ax], exp[ax])
+            S.claim_eq(f'rigidcluster[{i},{ax}]', r2[i][ax], exp[ax])
